@@ -33,6 +33,9 @@ type c04eCase struct {
 	Names  []string `json:"names"`
 	Cut    int      `json:"cut"` // -1: uninterrupted run only
 	Sender uint     `json:"sender_count"`
+	// Late: the last command of the history arrives 11 s after the others (the once-per-10-s poll
+	// of the source's replica table has run in between)
+	Late bool `json:"last_command_after_11s,omitempty"`
 }
 
 const c04eBase = 100 // offset announced with +FULLRESYNC
@@ -61,9 +64,14 @@ func c04eSync(t *testing.T, c c04eCase, tgt *mredis.Server) (abort bool, psyncs 
 	conf.Options.TargetReplace = true
 	conf.Options.BigKeyThreshold = 1 << 30
 	conf.Options.TargetVersion = ""
+	conf.Options.HttpProfile = 9320 // announced with REPLCONF listening-port; the model master lists the tool as a replica on that port
 	var stream []byte
 	for _, w := range c.Word {
 		stream = append(stream, syncSigma[w].bytes()...)
+	}
+	lateFrom := len(stream)
+	if c.Late && len(c.Word) > 0 {
+		lateFrom = len(stream) - len(syncSigma[c.Word[len(c.Word)-1]].bytes())
 	}
 	rdbFile := c04eRDB()
 	var mu sync.Mutex
@@ -106,6 +114,8 @@ func c04eSync(t *testing.T, c c04eCase, tgt *mredis.Server) (abort bool, psyncs 
 			ds := NewDbSyncer(node, 9320, semaphore.NewWeighted(1))
 			go ds.Sync()
 			answered := 0
+			var lateConn net.Conn
+			var lateStart int64
 			for step := 0; step < 8; step++ {
 				synctest.Wait()
 				ps := m.Psyncs()
@@ -117,17 +127,32 @@ func c04eSync(t *testing.T, c c04eCase, tgt *mredis.Server) (abort bool, psyncs 
 						// continue with the byte after the acknowledged offset
 						from := p.Offset - 1 - c04eBase
 						if from >= 0 && from <= int64(len(stream)) {
-							conn.Write(stream[from:])
+							to := int64(lateFrom)
+							if to < from {
+								to = from
+							}
+							conn.Write(stream[from:to])
+							lateConn, lateStart = conn, to
 						}
 					} else {
 						conn.Write([]byte(fmt.Sprintf("\n$%d\r\n", len(rdbFile))))
 						conn.Write(rdbFile)
-						conn.Write(stream)
+						conn.Write(stream[:lateFrom])
+						lateConn, lateStart = conn, int64(lateFrom)
 					}
 				}
 				time.Sleep(time.Second)
 			}
 			synctest.Wait()
+			if c.Late && lateConn != nil && lateStart < int64(len(stream)) {
+				time.Sleep(11 * time.Second)
+				synctest.Wait()
+				lateConn.Write(stream[lateStart:])
+				for i := 0; i < 3; i++ {
+					time.Sleep(time.Second)
+					synctest.Wait()
+				}
+			}
 			psyncs, acks = m.Psyncs(), m.Acks()
 			mu.Lock()
 			aborted := abort
@@ -270,8 +295,8 @@ func TestVerif_C04E(t *testing.T) {
 		}
 	}
 	var n, idx, ncuts int64
-	for _, h := range histories {
-		for _, sc := range []uint{1, 1024} {
+	for hi, h := range histories {
+		for si, sc := range []uint{1, 1024} {
 			idx++
 			if !ev.Mine(idx) {
 				continue
@@ -284,7 +309,7 @@ func TestVerif_C04E(t *testing.T) {
 			for _, s := range h {
 				word = append(word, sym(s))
 			}
-			c := c04eCase{Word: word, Names: h, Cut: -1, Sender: sc}
+			c := c04eCase{Word: word, Names: h, Cut: -1, Sender: sc, Late: (hi+si)%2 == 1}
 			k, w, cuts := c04eOne(t, c)
 			n++
 			ncuts += int64(cuts)
